@@ -96,7 +96,7 @@ func init() {
 			"the compiler rejects node kinds it cannot translate instead of leaving the operand stack inconsistent (R-EXHAUST/Compile).",
 		NotDecided:  "Stack balance in general, symbol-table histories (slot arithmetic), host crashes from value-level arithmetic.",
 		Assumptions: []string{"the VM dispatch is the switch over Opcode with the most cases in (*VM).Run", "ip is the instruction pointer variable of Run"},
-		Rules:       []*Rule{ruleOpTable, ruleNarrow, ruleJumpPatch, exhaustRule("Compile", 20), ruleLoopVarScope, ruleVMValues, f2iRule("pkg/bytecode", 2), ruleSlotMax},
+		Rules:       []*Rule{ruleOpTable, ruleNarrow, ruleJumpPatch, exhaustRule("Compile", 20), ruleLoopVarScope, ruleVMValues, f2iRule("pkg/bytecode", 2), ruleSlotMax, containerIdxRule("pkg/bytecode", 3)},
 	})
 }
 
@@ -128,7 +128,7 @@ func init() {
 			"number becomes an index only through normalizeIndex whose float→int conversion is NaN/Inf/fraction safe (R-F2I).",
 		NotDecided:  "The bounds predicate itself (-n ≤ i < n, a ≤ b ≤ n) and which element is returned.",
 		Assumptions: []string{},
-		Rules:       []*Rule{runesRule("pkg/evaluator", "stringVal", 4), f2iRule("pkg/evaluator", 4), ruleEvalMisc},
+		Rules:       []*Rule{runesRule("pkg/evaluator", "stringVal", 4), f2iRule("pkg/evaluator", 4), ruleEvalMisc, containerIdxRule("pkg/evaluator", 3)},
 	})
 }
 
